@@ -18,7 +18,7 @@ RULE = (
     "distinct = distinct cell tuples / distinct sequence shapes"
 )
 ASSUMPTIONS = ["EMPTY_ACK_DELAY is 0.1 s (read from the library at run time)", "simulated one-way latency 1 ms"]
-REQUIRED_MONITORS = {"multicast_con_request_suppressed": 4, "table_cell": 500, "table_cell_busy_peer": 100, "mid_boundary": 100, "duplicate_delivery": 100, "token_reuse": 50, "misfit_same_mid": 10, "con_never_to_multicast": 500, "sequence": 50, "noninterference": 50}
+REQUIRED_MONITORS = {"multicast_con_request_suppressed": 4, "table_cell": 500, "table_cell_busy_peer": 100, "mid_boundary": 100, "duplicate_delivery": 100, "token_reuse": 50, "misfit_same_mid": 10, "con_never_to_multicast": 500, "sequence": 50, "noninterference": 50, "response_object_returned_again": 48}
 EXHAUSTIVE = {"single_message_table": "types x codes x token known/unknown x unicast/multicast x delays x No-Response x result class as enumerated by cells()"}
 
 CON, NON, ACK, RST = 0, 1, 2, 3
@@ -79,6 +79,10 @@ def cells(tier="quick"):
             for known in (False, True):
                 for mc in (False, True, "v4"):
                     out.append((typ, code, known, mc, 0.0, None, 69))
+                    # ... looking like a notification (Observe option) or like one block of a larger representation:
+                    # the reaction depends on type and token only
+                    for ropt in ("obs0", "obs7", "b2more"):
+                        out.append((typ, code, known, mc, 0.0, ropt, 69))
         for code in RESERVED:
             for known in (False, True):
                 for mc in (False, True, "v4"):
@@ -102,7 +106,7 @@ def plan(tier, seed):
 
 
 # results that do not come out of a handler's return statement: the library builds these responses itself
-SPECIAL_RESULTS = {"raise-4.00": 128, "raise-5.03": 163, "crash-5.00": 160, "missing-4.04": 132, "method-4.05": 133, "tuning-cls-2.05": 69, "tuning-inst-2.05": 69, "unser-5.00": 160}
+SPECIAL_RESULTS = {"raise-4.00": 128, "raise-5.03": 163, "crash-5.00": 160, "missing-4.04": 132, "method-4.05": 133, "tuning-cls-2.05": 69, "tuning-inst-2.05": 69, "unser-5.00": 160, "cached-2.05": 69}
 
 
 def eff_code(rcode):
@@ -230,6 +234,13 @@ class Node:
                 payload = b"d=%s;c=%d;p=x" % (repr(d).encode(), rcode)
         elif code != 0:
             payload = b"resp"
+            if nr == "obs0":
+                opts.append((6, b""))
+            elif nr == "obs7":
+                opts.append((6, b"\x07"))
+            elif nr == "b2more":
+                opts.append((23, rc.block_bytes(0, True, 0)))
+                payload = b"0123456789abcdef"
         tok = token if code != 0 else b""
         return rc.Msg(typ, code, mid, tok, tuple(opts), payload)
 
@@ -337,9 +348,9 @@ def cell_key(cell):
     cls = "empty" if code == 0 else "request" if code <= 31 else "response" if 64 <= code <= 191 else "reserved"
     extra = ""
     if cls == "request" and typ in (CON, NON):
-        extra = "-" + ("fast" if d < 0.1 else "slow") + ("-noresp" if suppressed(nr, rcode) else "")
+        extra = "-" + ("fast" if d < 0.1 else "slow") + ("-noresp" if suppressed(nr, rcode) else "") + ("-response-object-reused" if rcode == "cached-2.05" else "")
     if cls == "response":
-        extra = "-" + ("known" if known else "unknown") + ("-mc4" if mc == "v4" else "-mc" if mc else "")
+        extra = "-" + ("known" if known else "unknown") + ("-mc4" if mc == "v4" else "-mc" if mc else "") + ("-" + nr if isinstance(nr, str) else "")
     return "%s-%s%s" % ("CON NON ACK RST".split()[typ], cls, extra)
 
 
@@ -412,8 +423,8 @@ def run_cell(cell, seed, rep, case, busy=False, mid=0x7001, dup_at=()):
     rep.case(("cell",) + tuple(map(repr, cell)), nontrivial=True)
 
 
-def run_sequence(seq_cells, seed, rep, case, drop_misfits=False):
-    """Send a sequence of cells 50 ms apart (unique MIDs, unique tokens); return per-message observed reactions."""
+def run_sequence(seq_cells, seed, rep, case, drop_misfits=False, gap=0.05):
+    """Send a sequence of cells 50 ms (or `gap`) apart (unique MIDs, unique tokens); return per-message observed reactions."""
     from harness import scenario, simnet, refcodec as rc
     import asyncio
 
@@ -434,7 +445,7 @@ def run_sequence(seq_cells, seed, rep, case, drop_misfits=False):
             t0 = loop.time()
             node.peer.send(simnet.addr(MC4 if mc == "v4" else MC, 5683) if mc else node.S, msg)
             sent.append((cell, msg, t0 + 0.001))
-            await asyncio.sleep(0.05)
+            await asyncio.sleep(gap)
         await asyncio.sleep(3.0)
         box.update(node=node, sent=sent)
         await node.stop()
@@ -531,6 +542,32 @@ def run_shard(shard, rep, only=None):
         if only is not None and only != case:
             continue
         run_cell(cell, shard["seed"] * 7919 + 50000 + i, rep, case, busy=True)
+    # ---- a resource that returns the same Message object for every request: each response is typed by its own
+    # request, whatever was stamped on the object when it was sent before ---------------------
+    kinds = [(CON, 0.0), (CON, 1.0), (NON, 0.0), (NON, 1.0)]
+    pairs = [(a, b, c) for a in kinds for b in kinds for c in (None,) + tuple(kinds[:1] + kinds[2:3])]
+    for j, trio in enumerate(pairs):
+        if j % shard["of"] != shard["index"]:
+            continue
+        case = ["cached", j]
+        if only is not None and only != case:
+            continue
+        seq = [(typ, 1, False, False, d, None, "cached-2.05") for typ, d in trio if typ is not None] if trio[2] is not None else [(typ, 1, False, False, d, None, "cached-2.05") for typ, d in trio[:2]]
+        res, box = run_sequence(seq, shard["seed"] * 7349 + j, rep, case, gap=1.5)
+        if not res.ok:
+            if res.horizon:
+                rep.inconc("horizon in cached-response sequence")
+            else:
+                rep.violation("sequence/scenario-failed", "sequence scenario did not complete: hang=%r error=%r" % (res.hang, res.error), {"seq": repr(seq)}, case)
+            continue
+        node, sent = box["node"], box["sent"]
+        rep.monitor("response_object_returned_again")
+        allr = reactions(node, sent[0][2] - 0.001, rc)
+        for k, (cell, msg, t_arr) in enumerate(sent):
+            witness = lambda **kw: dict(seq=repr(seq), cell=repr(cell), position=k, wire=node.net.dump(40), **kw)
+            judge_cell(cell, msg, t_arr, allr, ead, rep, case, witness)
+        if res.loop_exceptions:
+            rep.violation("loop-exception/" + str(res.loop_exceptions[0].get("exc_type")), "an exception reached the event loop while processing a message sequence", {"seq": repr(seq), "loop": res.loop_exceptions[:2]}, case)
     # ---- sequences -------------------------------------------------------------------
     judged = [c for c in allc if expected(c, ead) not in (None, "mc-non", "mc-con-suppressed")]
     nseq = 12 if tier == "quick" else 1500
